@@ -1,10 +1,10 @@
 #!/bin/bash
 # tools/confirm_mutant.sh <patch.diff>: applies the change to /tmp/confirm and runs the pinned suite there.
 set -u
-W=/tmp/confirm
+W=${MUT_W:-/tmp/confirm}
 git -C $W checkout -q -- . && git -C $W clean -fdq -e target
 git -C $W apply "$1" || { echo "PATCH DOES NOT APPLY"; exit 3; }
-cd $W && CARGO_TARGET_DIR=$W/target cargo nextest run --workspace --no-fail-fast --tool-config-file pb:/w/lib/nextest.toml --profile pb --test-threads 8 --offline > /tmp/confirm-run.log 2>&1
+cd $W && CARGO_TARGET_DIR=$W/target cargo nextest run --workspace --no-fail-fast --tool-config-file pb:/w/lib/nextest.toml --profile pb --test-threads 8 --offline > $W-run.log 2>&1
 python3 /verif/tools/junit_compare.py $W/target/nextest/pb/junit.xml
 rc=$?
 git -C $W checkout -q -- .
